@@ -389,7 +389,8 @@ sx_parse_(const char *s, const size_t n, const size_t i)
         rv.status = SXS_UNKNOWN_INPUT;
         return rv;
     }
-    if (i >= n && rv.node == NULL) {
+    if (rv.status == SXS_SUCCESS && rv.node == NULL) {
+        /* Nothing but white space up to the end of the input. */
         rv.status = SXS_UNEXPECTED_END;
         return rv;
     }
